@@ -39,6 +39,10 @@ def make(spec, constraints=None, **kw):
     kw.setdefault("use_stdlib", False)
     kw.setdefault("logging_level", logging.CRITICAL)
     kw.setdefault("use_cache", False)
+    if isinstance(spec, str) and spec.startswith("@file:"):
+        # a spec that lives in a file (include() names are resolved relative to it)
+        with open(spec[6:]) as fh:
+            return Fandango(fh, constraints, **kw)
     return Fandango(spec, constraints, **kw)
 
 
